@@ -89,6 +89,13 @@ NamedCtx(M, ctx) == {<<SymOf(M, t), ctx[t]>> : t \in DOMAIN ctx}
 TreeMatchRules(M, name) ==
   UNION {{<<NodeAt(M, r[1]).rules[j], NamedCtx(M, r[2])>> : j \in 1..Len(NodeAt(M, r[1]).rules)}
          : r \in TreeMatch(M, name, EmptyTCtx, NoDev)}
+(* the model as read by a checker constructed with function table tab (Lvs!Retab on the tree) *)
+RetabTOpt(o, tab) == IF o.hf THEN [o EXCEPT !.fn = TabName(tab, o.fn)] ELSE o
+RetabTree(M, tab) ==
+  [M EXCEPT !.nodes = [i \in 1..Len(M.nodes) |->
+     [M.nodes[i] EXCEPT !.p = [j \in 1..Len(M.nodes[i].p) |->
+        [M.nodes[i].p[j] EXCEPT !.cons = [a \in 1..Len(M.nodes[i].p[j].cons) |->
+           [b \in 1..Len(M.nodes[i].p[j].cons[a]) |-> RetabTOpt(M.nodes[i].p[j].cons[a][b], tab)]]]]]]]
 TreeCheck(M, pkt, key, dev) ==
   \E r \in TreeMatch(M, pkt, EmptyTCtx, dev) : \E k \in TreeMatch(M, key, r[2], dev) :
      k[1] \in SeqToSet(NodeAt(M, r[1]).sign)
